@@ -52,4 +52,53 @@ theorem pubcomp_refills {w : World} (h : WInv w) (p : Nat) (ppr : Proto) (hpp : 
   rw [a1] at this
   exact this
 
+theorem mk_refills (w : World) (p : Nat) (qn m : Nat) (d : Option Nat) (bs : Bytes) (o : Obs) (hw : 1 ≤ (w.proto p).window) :
+    Ents.items ((mkStep p (w.proto p) qn m d bs ;; emit o) w).1.ents (w.paddr p) .queue = [] ∨
+    0 < Ents.count ((mkStep p (w.proto p) qn m d bs ;; emit o) w).1.ents (w.paddr p) .pub := by
+  simp only [mkStep, Step.read, Step.seq, Step.mod, setEnts, refill, emit]
+  generalize hw2 : (World.setEnts _ _) = w2
+  have hp : w2.protos = w.protos := by rw [← hw2]; rfl
+  have h1 : w2.paddr p = w.paddr p := by simp only [World.paddr, World.proto, hp]
+  have h2 : (w2.proto p).window = (w.proto p).window := by simp only [World.proto, hp]
+  have := refill_leaves_exchange p false (Ents.count w2.ents (w2.paddr p) .queue) w2 (by rw [h2]; exact hw) (Nat.le_refl _)
+  rw [h1] at this ⊢
+  exact this
+
+/-- **after publish()**: refused or rejected calls change no container; an accepted one ends with the refill, so afterwards no message of the
+    address is held back, or a PUBLISH of the address is awaiting its first acknowledgement -/
+theorem publish_refills (w : World) (p : Nat) (topic : PyStr) (payload : Payload) (qos : Int) (retain : Bool)
+    (hw : 1 ≤ (w.proto p).window) :
+    (apiPublish p topic payload qos retain w).1.ents = w.ents ∨
+    Ents.items (apiPublish p topic payload qos retain w).1.ents (w.paddr p) .queue = [] ∨
+    0 < Ents.count (apiPublish p topic payload qos retain w).1.ents (w.paddr p) .pub := by
+  rw [apiPublish_eq]
+  split
+  · exact Or.inl rfl
+  · split
+    · exact Or.inl rfl
+    · split
+      · cases encodePublishPy topic payload 0 retain none with
+        | error e => exact Or.inl rfl
+        | ok bs => exact Or.inr (mk_refills w p _ _ _ _ _ hw)
+      · -- an identifier is drawn first (the containers are not touched by that)
+        simp only [makeId, Step.read, Step.seq, Step.mod]
+        generalize hw1 : ({ w with nextId := scanId w 65535 w.nextId, idAllocs := w.idAllocs + 1 } : World) = w1
+        have hp : w1.protos = w.protos := by rw [← hw1]
+        have he : w1.ents = w.ents := by rw [← hw1]
+        have h1 : w1.paddr p = w.paddr p := by simp only [World.paddr, World.proto, hp]
+        have h2 : w1.proto p = w.proto p := by simp only [World.proto, hp]
+        cases encodePublishPy topic payload qos.toNat retain (some ((scanId w 65535 w.nextId : Nat) : Int)) with
+        | error e => exact Or.inl (by show (w1.emit _).ents = w.ents; exact he)
+        | ok bs =>
+          refine Or.inr ?_
+          dsimp only
+          rw [show ∀ (k : Nat → Step) (w : World), newDfd k w = k w.nextDfd { w with nextDfd := w.nextDfd + 1 } from fun _ _ => rfl]
+          generalize hw1' : ({ w1 with nextDfd := w1.nextDfd + 1 } : World) = w1'
+          have hp' : w1'.protos = w.protos := by rw [← hw1']; exact hp
+          have h1' : w1'.paddr p = w.paddr p := by simp only [World.paddr, World.proto, hp']
+          have h2' : w1'.proto p = w.proto p := by simp only [World.proto, hp']
+          have := mk_refills w1' p qos.toNat (scanId w 65535 w.nextId) (some w1.nextDfd) bs
+            (Obs.retPending w1.nextDfd (some (scanId w 65535 w.nextId))) (by rw [h2']; exact hw)
+          rw [h1', h2'] at this
+          exact this
 end Mqtt.C10
